@@ -39,6 +39,10 @@ EXPLANATION = (
     "predicate under which an entry is removed as default-routable and the "
     "predicate under which a missing entry is accepted as default-routed "
     "contain the same five conditions. R6: the delegated component rules.")
+EXPLANATION += (
+    " R3 also requires the argument of each Routes.core(...) to be the "
+    "element of the loop over the allocation; C10-R1's constructor rule "
+    "(copies stored unchanged) is re-run.")
 NOT_DECIDED = [
     "that the composed placer -> router -> tables -> minimiser delivers "
     "every packet exactly once on every machine / fault map (quantifies "
